@@ -7,7 +7,7 @@ T1_MODULES = {
     "C17": ["vt.contracts.syntactic", "vt.contracts.misc_small"],
     "C16": ["vt.contracts.syntactic"],
     "C15": ["vt.contracts.diskdict_effects"],
-    "C13": ["vt.contracts.syntactic", "vt.contracts.misc_small"],
+    "C13": ["vt.contracts.syntactic", "vt.contracts.misc_small", "vt.contracts.cache_key"],
     "C01": ["vt.contracts.legs_rules", "vt.contracts.core_mutators", "vt.contracts.utils_maxcounter", "vt.contracts.einsum_eq", "vt.contracts.tensordot_recipe"],
     "C02": ["vt.contracts.legs_rules", "vt.contracts.syntactic", "vt.contracts.core_mutators", "vt.contracts.utils_maxcounter"],
     "C03": ["vt.contracts.utils_maxcounter", "vt.contracts.legs_rules", "vt.contracts.core_stats"],
